@@ -218,10 +218,7 @@ def probe_bytes_offset_fetch():
 
 def group_form(rnd, api=None):
     """group names are accepted as text or bytes everywhere (client.py _coerce_consumer_group)"""
-    f = "bytes" if rnd.random() < 0.35 else None
-    if api == "offset_fetch" and not BYTES_OFFSET_FETCH_OK[0]:
-        return None          # finding F-C07-3 (reported by the probe): keep the histories inside the model
-    return f
+    return "bytes" if rnd.random() < 0.35 else None
 
 
 def gen_send(rnd, W, api=None, maxp=6, fail=None, many=False):
